@@ -12,7 +12,7 @@ from specs.nixlex import DQ_D, DQ_N, DQ_R, dq_decode, dq_state
 
 STR_ALPHABET = ["a", '"', "\\", "$", "{", "}", "\n", "\r", "\t", " ", "é", "'", "#", "\x00", "\x7f"]
 INTS = [0, 1, -1, 42, -7, 10 ** 20, -(10 ** 20)]
-FLOATS = [0.5, 1.0, -2.5, 3.14, 1e16, 1e-07, 123456.789, -0.0, 1e100, 5e-324]
+FLOATS = [0.5, 1.0, -2.5, 3.14, 1e16, 1e-07, 123456.789, -0.0, 0.0, 1e100, 5e-324, -1.0]
 
 
 def strings(max_len):
@@ -79,8 +79,8 @@ def decode(n):
 
 def same(a, b):
     if isinstance(a, float) or isinstance(b, float):
-        return isinstance(a, (int, float)) and isinstance(b, (int, float)) and not isinstance(a, bool) and not isinstance(b, bool) \
-            and float(a) == float(b) and math.copysign(1, float(a)) == math.copysign(1, float(b))
+        # numbers keep their value and sign; a float stays a float (1.0 vs 1 are different Nix values)
+        return isinstance(a, float) and isinstance(b, float) and a == b and math.copysign(1, a) == math.copysign(1, b)
     if type(a) is not type(b):
         return False
     if isinstance(a, list):
@@ -167,11 +167,21 @@ def values(tier):
     yield ("dict", {"a": {"b": {"c": {"d": 1}}}})
     yield ("dict", {"l": [{"no": 1}]}) if False else ("dict", {"l": [1, 2, 3, 4, 5, 6, 7, 8, 9, 10]})
     yield ("dict", {"long": ["x" * 40, "y" * 40, "z" * 40]})
+    # values that compare/hash equal in Python but are different Nix values, together and in both orders
+    for a, b in itertools.permutations([0, 0.0, -0.0, False, 1, 1.0, True, -1, -1.0, "", None], 2):
+        yield ("pair", {"first": a, "second": b})
+        yield ("pair", {"l": [a, b]})
 
 
 def _chunk(items):
     bad = []
     for kind, v in items:
+        if kind == "pair":
+            # history independence: render the components one after the other in this very process first
+            for comp in (v.get("first"), v.get("second")) if "first" in v else v["l"]:
+                r0 = check_value(comp) if not isinstance(comp, dict) else None
+                if r0:
+                    bad.append(("after-history", comp, r0[0], r0[1]))
         r = check_value(v)
         if r:
             bad.append((kind, v, r[0], r[1]))
@@ -186,6 +196,8 @@ def classify(kind, v):
         return "str[" + ",".join(chars) + "]"
     if kind == "float":
         return f"float[{v!r}]"
+    if kind in ("pair", "after-history"):
+        return f"{kind}[{v!r}]"[:60]
     if kind == "int":
         return "int[negative]" if v < 0 else "int"
     return f"{kind}[{v!r}]"[:80]
